@@ -137,6 +137,20 @@ func EventType(event any) string {
 	return reflect.TypeOf(event).String()
 }
 
+// eventTypeNameOf returns the name EventType reports for events of type T,
+// for the APIs that select stored events by Go type.
+func eventTypeNameOf[T any]() string {
+	t := reflect.TypeOf((*T)(nil)).Elem()
+	if t.Kind() != reflect.Interface && t.Implements(reflect.TypeOf((*TypeNamer)(nil)).Elem()) {
+		v := reflect.Zero(t)
+		if t.Kind() == reflect.Ptr {
+			v = reflect.New(t.Elem()) // a usable receiver rather than a nil pointer
+		}
+		return EventType(v.Interface())
+	}
+	return t.String()
+}
+
 // Observability is an optional interface for metrics and tracing.
 // Implementations can track event publishing, handler execution, and errors.
 //
